@@ -1,3 +1,4 @@
+import json
 import typing
 # ******************************************************************************
 # ******************************************************************************
@@ -174,7 +175,9 @@ def generate_composite_keys(
                         created_composite_key += key + "=" + tranformed
         else:
             ## raise TypeError(f"generate_composite_keys(..): expected element dict inside list, but got ({type(line)}){line}")
-            created_composite_key = str(line)
+            # Not a record: the key is the JSON text of the item, which keeps its type apart
+            # (1 <> '1', None <> 'None', '' <> the empty key of a record)
+            created_composite_key = json.dumps(line, default=repr)
         composite_keys_for_all_lines.append((created_composite_key, line_i))
     return composite_keys_for_all_lines
 # ******************************************************************************
